@@ -72,6 +72,7 @@ func TestWorker(t *testing.T) {
 }
 
 type knobs struct {
+	uaComments   []string
 	inbound      bool
 	localPV      uint32 // as configured (0: default)
 	effPV        uint32 // effective local version
@@ -180,6 +181,13 @@ func (s *sim) drawKnobs() {
 	c := s.r.C
 	k := &s.k
 	k.inbound = c.Intn(2, "dir") == 1
+	if c.Bool(40, "ua-long") {
+		// operator comments that make the user agent exactly as long as
+		// allowed, or too long (then they are left out and the handshake
+		// goes ahead without them)
+		n := []int{236, 237, 238, 300}[c.Intn(4, "ua-len")]
+		k.uaComments = []string{strings.Repeat("c", n)}
+	}
 	k.localPV = []uint32{0, 70016, 70013, 70002, 60002, 70015}[simkit.Pick(c, "lpv", 8, 3, 3, 3, 2, 1)]
 	k.effPV = k.localPV
 	if k.effPV == 0 {
@@ -296,6 +304,7 @@ func (s *sim) peerConfig() *peer.Config {
 		},
 		UserAgentName:       "verifpeer",
 		UserAgentVersion:    "1.0.0",
+		UserAgentComments:   k.uaComments,
 		ChainParams:         k.params,
 		Services:            svc,
 		ProtocolVersion:     k.localPV,
